@@ -276,7 +276,7 @@ def describe(row, rj):
 # ---------------------------------------------------------------- the check
 def run(res, tier, seed):
     common.build_harness()
-    n = 1500 if tier == "quick" else 12000
+    n = 1200 if tier == "quick" else 12000
     t0 = time.time()
     rows, _ = common.run_harness(["c08", "-seed", seed, "-n", n, "-repo", common.REPO], timeout=1800)
     stats = rows[-1]
